@@ -120,7 +120,11 @@ fn slug(s: &str) -> String {
     let mut words = 0;
     let mut prev_dash = true;
     for c in s.chars() {
-        if c.is_ascii_alphanumeric() {
+        if c.is_ascii_digit() {
+            // numbers vary from case to case: not part of a site identifier
+            continue;
+        }
+        if c.is_ascii_alphabetic() {
             out.push(c.to_ascii_lowercase());
             prev_dash = false;
         } else if !prev_dash {
@@ -137,7 +141,13 @@ fn slug(s: &str) -> String {
 
 fn install_panic_hook() {
     std::panic::set_hook(Box::new(|info| {
-        let loc = info.location().map(|l| l.file().rsplit('/').next().unwrap_or("?").to_string()).unwrap_or_default();
+        let loc = info
+            .location()
+            .map(|l| {
+                let parts: Vec<&str> = l.file().rsplit('/').take(2).collect();
+                parts.into_iter().rev().collect::<Vec<_>>().join("/")
+            })
+            .unwrap_or_default();
         let msg = if let Some(s) = info.payload().downcast_ref::<&str>() {
             s.to_string()
         } else if let Some(s) = info.payload().downcast_ref::<String>() {
@@ -184,7 +194,7 @@ pub fn worker_main() {
 }
 
 /// a case on a small input that takes longer than this is reported as work unrelated to input size
-pub const SLOW_MS: u128 = 2000;
+pub const SLOW_MS: u128 = 2500;
 
 pub struct Outcome {
     pub ms: u128,
@@ -325,6 +335,9 @@ pub fn run_and_record(w: &mut Worker, sink: &mut vcommon::Sink, line: String, ta
             fails.push(format!("HANG (> {} s wall clock)", w.timeout.as_secs()));
         }
         "ABORT" => {
+            if o.alloc_site.contains("thrift") || o.alloc_site.contains("page_index") {
+                tags.push_str(" kf:thrift-vec-capacity-from-input");
+            }
             tags.push_str(&format!(" kf:abort-{}", o.alloc_site));
             fails.push(format!("ABORT (process aborted; refused allocation request of {} bytes from {})", o.max_req, o.alloc_site));
         }
@@ -335,6 +348,9 @@ pub fn run_and_record(w: &mut Worker, sink: &mut vcommon::Sink, line: String, ta
         _ => {}
     }
     if o.answer != "ABORT" && o.max_req > soft_limit(input_len) {
+        if o.alloc_site.contains("thrift") || o.alloc_site.contains("page_index") {
+            tags.push_str(" kf:thrift-vec-capacity-from-input");
+        }
         tags.push_str(&format!(" kf:alloc-{} alloc:2^{}", o.alloc_site, log2_bucket(o.max_req)));
         fails.push(format!("ALLOC single request of {} bytes for a {}-byte input, from {}", o.max_req, input_len, o.alloc_site));
     }
